@@ -1,14 +1,13 @@
 #!/bin/bash
-# usage: tools/seed_regress.sh [tier] : runs every seeded change of /verif/seeded against the check of its property
-# (git apply on /repo, ./check, git checkout) and reports which ones end in VIOLATION
-TIER="${1:-quick}"
+# usage: tools/seed_regress.sh [tier] [parallel] : runs every seeded change of /verif/seeded against the check of its
+# property, each on its own scratch worktree (tools/seed_check_wt.sh), and reports which ones end in VIOLATION
+TIER="${1:-quick}"; PAR="${2:-3}"
 cd /verif
 mkdir -p /tmp/seedreg
-for d in seeded/*/; do
-  id=$(basename $d)
-  prop=$(python3 -c "import json;print(json.load(open('$d/meta.json'))['property'])")
+ls -d seeded/*/ | xargs -P "$PAR" -I{} bash -c '
+  d={}; id=$(basename $d)
+  prop=$(python3 -c "import json;print(json.load(open(\"$d/meta.json\"))[\"property\"])")
   s=$(date +%s)
-  tools/seed_check.sh /verif/$d/patch.diff $prop $TIER > /tmp/seedreg/$id.log 2>&1
+  tools/seed_check_wt.sh /verif/$d/patch.diff $prop '"$TIER"' > /tmp/seedreg/$id.log 2>&1
   e=$(date +%s)
-  echo "$id $prop $((e-s))s violations=$(grep -c '^VIOLATION' /tmp/seedreg/$id.log) $(grep 'check exit code' /tmp/seedreg/$id.log)"
-done
+  echo "$id $prop $((e-s))s violations=$(grep -c "^VIOLATION" /tmp/seedreg/$id.log) $(grep "check exit code" /tmp/seedreg/$id.log)"'
